@@ -329,11 +329,20 @@ void vr_case(uint64_t seed, uint64_t idx, int profile)
               for (int q = 0; q < 8 && ndead && vr_nviol == 0; q++) { uint64_t dk = dead[ndead - 1 - vr_below(&r, ndead < 64 ? ndead : 64)]; if (m_find(dk) >= 0) continue; if (cmi_hashheap_is_enqueued(hp, dk)) BAD("C02/is-enqueued-dead", "after clear + re-use, cleared key %" PRIu64 " is reported present", dk); else if (cmi_hashheap_remove(hp, dk)) BAD("C02/remove-dead", "after clear + re-use, remove(cleared key %" PRIu64 ") returned true", dk); }
               VR_CNT("clear_then_reuse_checked"); }
             break; }
-        case 13: { /* reset */
-            VR_CNT("op_reset");
-            cmi_hashheap_reset(hp);
-            while (mn) m_del(mn - 1);
-            if (hp->heap_exp_cur != exp0) BAD("C02/reset-exp", "reset left exponent %u (init %u)", hp->heap_exp_cur, exp0);
+        case 13: { /* reset, or the two steps by hand with another initial size: a second life of the same struct, populated or not */
+            if (vr_chance(&r, 1, 2)) {
+                VR_CNT("op_reset");
+                cmi_hashheap_reset(hp);
+                while (mn) m_del(mn - 1);
+                if (hp->heap_exp_cur != exp0) BAD("C02/reset-exp", "reset left exponent %u (init %u)", hp->heap_exp_cur, exp0);
+            } else {
+                VR_CNT("op_terminate_initialize"); if (mn) VR_CNT("second_lives_after_a_populated_first");
+                cmi_hashheap_terminate(hp);
+                exp0 = 1 + (unsigned)vr_below(&r, 6);
+                cmi_hashheap_initialize(hp, (uint16_t)exp0, cmp);
+                while (mn) m_del(mn - 1);
+                if (cmi_hashheap_count(hp) != 0 || !cmi_hashheap_is_empty(hp)) BAD("C02/count-query", "a hashheap initialised again reports %" PRIu64 " entries", cmi_hashheap_count(hp));
+            }
             break; }
         }
         if (vr_nviol) break;
